@@ -442,7 +442,7 @@ func c08NamespaceRewrite(c *Check, a *Anchors) {
 		if !ok || !a.is(callee(info, call), helper) || len(call.Args) != 2 {
 			return false
 		}
-		if !fieldSel(info, call.Args[1], PkgAst, "Include", "Namespace") {
+		if !fieldOrLocalOf(c.P, info, call.Args[1], PkgAst, "Include", "Namespace") {
 			return false
 		}
 		return typ == "" || fieldSel(info, call.Args[0], PkgAst, typ, field)
@@ -490,7 +490,7 @@ func c08NamespaceRewrite(c *Check, a *Anchors) {
 				if strings.Contains(s, "||") && strings.Contains(s, ".Internal") && strings.Count(s, ".Internal") >= 2 {
 					found["internal-or"] = true
 				}
-			case fieldSel(info, l, PkgAst, "Task", "Namespace") && fieldSel(info, r, PkgAst, "Include", "Namespace"):
+			case fieldSel(info, l, PkgAst, "Task", "Namespace") && fieldOrLocalOf(c.P, info, r, PkgAst, "Include", "Namespace"):
 				found["namespace-recorded"] = true
 			}
 			return true
@@ -672,6 +672,35 @@ func c08CycleVersionMissing(c *Check, a *Anchors) {
 			c.Decide(isCycle, "cycle-version-missing", fmt.Sprintf("cycle-error#%d@%s", i+1, fnDisplay(inc)), r.Pos(), "ErrEdgeCreatesCycle -> TaskfileCycleError", "an include cycle is not reported as TaskfileCycleError")
 		}
 	}
+	// the cycle test may live in a method of the reader that the closure hands the edge update to
+	for _, fb := range c.P.BodiesIn(PkgTaskfile) {
+		if fb == inc || fb.Decl == nil {
+			continue
+		}
+		has := false
+		for _, call := range callsIn(fb, false) {
+			if isFunc(callee(fb.Info(), call), PkgErrors, "", "Is") && len(call.Args) == 2 && strings.Contains(exprStr(call.Args[1]), "ErrEdgeCreatesCycle") {
+				has = true
+			}
+		}
+		if !has {
+			continue
+		}
+		c.Fn(fb)
+		hf := NewFlow(c.P, fb, func(call *ast.CallExpr, obj types.Object) string {
+			if isFunc(obj, PkgErrors, "", "Is") && len(call.Args) == 2 && strings.Contains(exprStr(call.Args[1]), "ErrEdgeCreatesCycle") {
+				return "iscycle"
+			}
+			return ""
+		})
+		hf.Run()
+		for i, r := range hf.Returns {
+			if res := errResult(r); res != nil && hf.At[r].Has("true:iscycle") {
+				nn++
+				c.Decide(strings.Contains(exprStr(res), "TaskfileCycleError"), "cycle-version-missing", fmt.Sprintf("cycle-error#%d@%s", i+1, fnDisplay(fb)), r.Pos(), "ErrEdgeCreatesCycle -> TaskfileCycleError", "an include cycle is not reported as TaskfileCycleError")
+			}
+		}
+	}
 	c.Floor("cycle-version-missing", nn+n+1, 7)
 	// the recursion error must be tested at all
 	tested := false
@@ -701,10 +730,11 @@ func c08RootRef(c *Check, a *Anchors) {
 	c.Fn(helper)
 	info := helper.Info()
 	var marked *ast.IfStmt
+	var cutVar *types.Var
 	inspectBody(helper.Body, func(nd ast.Node) bool {
 		if ifs, ok := nd.(*ast.IfStmt); ok {
-			if call, ok := ast.Unparen(ifs.Cond).(*ast.CallExpr); ok && isFunc(callee(info, call), "strings", "", "HasPrefix") {
-				marked = ifs
+			if _, _, cv, ok := prefixTest(info, ifs); ok {
+				marked, cutVar = ifs, cv
 			}
 		}
 		return true
@@ -717,6 +747,9 @@ func c08RootRef(c *Check, a *Anchors) {
 	for _, r := range returnsOf(marked.Body) {
 		if call, ok := ast.Unparen(r.Results[0]).(*ast.CallExpr); ok && isFunc(callee(info, call), "strings", "", "TrimPrefix") {
 			stripped = true
+		}
+		if cutVar != nil && varOf(info, r.Results[0]) == cutVar {
+			stripped = true // the first result of strings.CutPrefix
 		}
 	}
 	// number of merge levels: the graph merge walks every non-root vertex
@@ -733,8 +766,8 @@ func namespaceHelper(c *Check, a *Anchors) *FuncBody {
 	if merge == nil {
 		return nil
 	}
-	info := merge.Info()
 	for _, g := range mergeGroup(c, merge) {
+		info := g.Info()
 		for _, call := range callsIn(g, true) {
 			fn, ok := callee(info, call).(*types.Func)
 			if !ok || fn.Pkg() == nil || fn.Pkg().Path() != PkgAst || len(call.Args) != 2 {
@@ -748,6 +781,12 @@ func namespaceHelper(c *Check, a *Anchors) *FuncBody {
 				if fieldSel(info, arg, PkgAst, "Include", "Namespace") {
 					return c.P.DeclOf(fn)
 				}
+				// ... or a local that holds it (`ns := include.Namespace`)
+				if v := varOf(info, arg); v != nil && !v.IsField() {
+					if d := singleDef(info, g.Root().Body, v); d != nil && fieldSel(info, d, PkgAst, "Include", "Namespace") {
+						return c.P.DeclOf(fn)
+					}
+				}
 			}
 		}
 	}
@@ -759,7 +798,10 @@ func namespaceHelper(c *Check, a *Anchors) *FuncBody {
 func mergeGroup(c *Check, merge *FuncBody) []*FuncBody {
 	containers := map[string]bool{"Tasks": true, "Vars": true, "Includes": true, "Matrix": true}
 	var out []*FuncBody
-	for _, g := range c.P.groupOf(merge, 1) {
+	for _, g := range c.P.groupOf(merge, 2) {
+		if g.Pkg.PkgPath != PkgAst {
+			continue
+		}
 		if g == merge || !containers[recvOf(g)] {
 			out = append(out, g)
 		}
